@@ -48,11 +48,13 @@ def _T(s):
 def _grid(s, P, pts):
     # grids of equal length and different values (a cache keyed on len(xx) must collide)
     r = s.random()
-    if r < 0.65:
+    if r < 0.6:
         return P.add('grid', pts)
-    if r < 0.85:
+    if r < 0.75:
         return P.add('grid_exp', pts)
-    return P.add('grid_exp', pts, 4.0)
+    if r < 0.88:
+        return P.add('grid_exp', pts, 4.0)
+    return P.add('grid_cumsum', pts)
 
 
 def g_chain1d(s, P):
@@ -72,6 +74,8 @@ def g_chain1d(s, P):
             ikw['frozen'] = True
         if s.chance(0.2):
             ikw['theta0'] = _par(s, [1.0, 2.0])
+        if s.chance(0.2):
+            ikw['beta'] = s.choice([1, 3.0, 0.5])
         phi = P.add('Integration.one_pop', phi, xx, _T(s), _par(s, [0.5, 1.0, 2.0]), **ikw)
     n = s.choice(NS)
     skw = {}
@@ -136,6 +140,24 @@ def _spec_tail(s, P, fs, ns):
             data = P.add('mk_spectrum', s.randint(0, 5), [n + 1 for n in ns], s.choice([0.0, 0.2]), s.chance(0.3))
             P.add(s.choice(['ll', 'll_multinom', 'll_per_bin', 'optimal_sfs_scaling', 'optimally_scaled_sfs',
                             'linear_Poisson_residual', 'Anscombe_Poisson_residual']), fs, data)
+
+
+def g_regrid(s, P):
+    """a model evaluated on one grid, its objects dropped, then the same kind of model on another grid with the same number
+    of points (freed arrays' addresses are reused by the allocator: fault E1 for grids and densities)"""
+    pts = s.choice([8, 10, 12])
+    kinds = s.sample(['grid', 'grid_exp', 'grid_exp4', 'grid_cumsum'], 2)
+    last = None
+    for kind in kinds:
+        xx = P.add('grid_exp', pts, 4.0) if kind == 'grid_exp4' else P.add(kind, pts)
+        phi = P.add('phi_1D', xx)
+        ph2 = P.add('Integration.one_pop', phi, xx, s.choice([0.02, 0.05]), {'$fn': 'ramp', 'a': 1.0, 'b': s.choice([0.0, 5.0])},
+                    **({'gamma': {'$fn': 'const', 'v': -2.0}} if s.chance(0.4) else {}))
+        fs = P.add('from_phi', ph2, [s.choice([3, 4])], T(xx))
+        P.steps.append({'r': '%sdrop%d' % (P.p, len(P.steps)), 'op': 'E1.forget', 'a': [xx['$'], phi['$'], ph2['$']]})
+        last = fs
+    P.add('S.fold', last)
+    return P
 
 
 def g_chain2d(s, P):
@@ -732,7 +754,7 @@ def g_interference(s, P):
 
 
 TEMPLATES = [
-    (g_chain1d, 10), (g_chain2d, 12), (g_chain3d, 7), (g_chain4d, 6), (g_chain5d, 2), (g_spectrum, 10), (g_numerics, 7),
+    (g_chain1d, 10), (g_regrid, 4), (g_chain2d, 12), (g_chain3d, 7), (g_chain4d, 6), (g_chain5d, 2), (g_spectrum, 10), (g_numerics, 7),
     (g_badcalls, 5), (g_lowpass, 4), (g_lowpass_model, 2), (g_lowpass_dd, 3), (g_optgrid, 2), (g_datadict, 5), (g_opthelp, 4), (g_objective, 3), (g_inbreeding, 4), (g_extrap, 5), (g_demes, 6), (g_godambe, 8), (g_godambe_neg, 2), (g_godambe_real, 2),
 ]
 
